@@ -7,6 +7,7 @@ import (
 	"bufio"
 	"bytes"
 	"crypto/sha256"
+	"encoding/gob"
 	"encoding/hex"
 	"encoding/json"
 	"fmt"
@@ -16,6 +17,7 @@ import (
 	"os/exec"
 	"path/filepath"
 	"regexp"
+	"runtime"
 	"sort"
 	"strings"
 	"time"
@@ -35,8 +37,8 @@ import (
 type TaskSpec struct {
 	Kind string   `json:"kind"`
 	Doc  string   `json:"doc,omitempty"`
-	Sets []string `json:"sets,omitempty"`  // installer: successive registry contents ("AB", "ABC", ...; Z is always present)
-	Args []string `json:"args,omitempty"` // lookup: names to look up
+	Sets []string `json:"sets,omitempty"`  // installer: successive registry contents ("AB", "aBC", ...; Z is always present; a lower-case letter is the OLDER revision of that font: same name, different font program)
+	Args []string `json:"args,omitempty"` // lookup: names to look up; "read:<name>" reads the installed font program (font.Read)
 }
 
 // RunSpec is everything a child needs: one integer decided all of it.
@@ -45,6 +47,8 @@ type RunSpec struct {
 	Tasks          []TaskSpec `json:"tasks"`
 	Decisions      []uint32   `json:"decisions"`
 	SwitchPermille int        `json:"switch_permille"`
+	PCTDepth       int        `json:"pct_depth,omitempty"`   // > 0: PCT strategy with this depth instead of a coin per scheduling point
+	PCTHorizon     int        `json:"pct_horizon,omitempty"` // priority change points fall among the first PCTHorizon scheduling points
 	Preload        bool       `json:"preload"` // call LoadUserFonts before the tasks start
 	Solo           bool       `json:"solo"`    // no interleaving: tasks run one after the other
 }
@@ -52,7 +56,7 @@ type RunSpec struct {
 // HistEvent is one font-registry operation.
 type HistEvent struct {
 	Task   int      `json:"task"`
-	Op     string   `json:"op"` // reload isuser names
+	Op     string   `json:"op"` // reload isuser names | read (font.Read of Arg) | disk (the installer published revision/absence of a font file: Arg = "<name>=<rev|absent>")
 	Arg    string   `json:"arg,omitempty"`
 	Result string   `json:"result"`
 	Call   int      `json:"call"`
@@ -114,6 +118,7 @@ type Batch struct {
 }
 
 func runSchedule(spec RunSpec, pool string, first bool) (*RunResult, int) {
+	runtime.VerifSetMapRand(spec.Seed) // map seeds and walk orders are part of the schedule
 	work, err := os.MkdirTemp(os.Getenv("VERIF_SCRATCH"), "c40-")
 	if err != nil {
 		fmt.Fprintln(os.Stderr, err)
@@ -125,6 +130,14 @@ func runSchedule(spec RunSpec, pool string, first bool) (*RunResult, int) {
 	copyGob := func(c byte) {
 		b, _ := os.ReadFile(filepath.Join(pool, fontName(c)+".gob"))
 		os.WriteFile(filepath.Join(fontDir, fontName(c)+".gob"), b, 0644)
+	}
+	// which revision of each font file is on disk ("new", "old"; absent = not in the map)
+	onDisk := map[string]string{fontName('A') + ".gob": "new", fontName('B') + ".gob": "new", fontName(stableFont) + ".gob": "new"}
+	poolFile := func(nm, rev string) string {
+		if rev == "old" {
+			return filepath.Join(pool, "old", nm)
+		}
+		return filepath.Join(pool, nm)
 	}
 	for _, c := range []byte{'A', 'B', stableFont} { // S0 = {A, B, Z}
 		copyGob(c)
@@ -199,6 +212,17 @@ func runSchedule(spec RunSpec, pool string, first bool) (*RunResult, int) {
 				for _, name := range ts.Args {
 					call := simsched.Now()
 					simsched.Yield("lookup")
+					if strings.HasPrefix(name, "read:") {
+						// the installed font program, as every user-font embedding reads it
+						bb, e := font.Read(strings.TrimPrefix(name, "read:"))
+						res := "ERR"
+						if e == nil {
+							res = progDigest(bb)
+						}
+						hists[i] = append(hists[i], HistEvent{Task: i, Op: "read", Arg: strings.TrimPrefix(name, "read:"), Result: res, Call: call, Ret: simsched.Now()})
+						fmt.Fprintf(&sb, "%s=%s ", name, res)
+						continue
+					}
 					if name == "*" {
 						nn, e := font.UserFontNames()
 						sort.Strings(nn)
@@ -231,22 +255,31 @@ func runSchedule(spec RunSpec, pool string, first bool) (*RunResult, int) {
 			case "installer":
 				for _, set := range ts.Sets {
 					// rewrite the directory to exactly set (+ the stable font), then reload
-					want := map[string]bool{fontName(stableFont) + ".gob": true}
+					want := map[string]string{fontName(stableFont) + ".gob": "new"}
 					for _, c := range []byte(set) {
-						want[fontName(c)+".gob"] = true
+						rev := "new"
+						if c >= 'a' && c <= 'z' {
+							rev, c = "old", c-'a'+'A'
+						}
+						want[fontName(c)+".gob"] = rev
 					}
-					ents, _ := os.ReadDir(fontDir)
-					for _, e := range ents {
-						if !want[e.Name()] {
-							os.Remove(filepath.Join(fontDir, e.Name()))
+					for _, nm := range sortedNames(onDisk) {
+						if _, keep := want[nm]; !keep {
+							c0 := simsched.Now()
+							os.Remove(filepath.Join(fontDir, nm))
+							delete(onDisk, nm)
+							hists[i] = append(hists[i], HistEvent{Task: i, Op: "disk", Arg: strings.TrimSuffix(nm, ".gob") + "=absent", Result: "ok", Call: c0, Ret: simsched.Now()})
 						}
 					}
-					for nm := range want {
-						if _, e := os.Stat(filepath.Join(fontDir, nm)); e != nil {
-							b, _ := os.ReadFile(filepath.Join(pool, nm))
-							// staged under a name the font loader does not take for a font
+					for _, nm := range sortedNames(want) {
+						if onDisk[nm] != want[nm] {
+							b, _ := os.ReadFile(poolFile(nm, want[nm]))
+							// staged under a name the font loader does not take for a font, published by rename
 							os.WriteFile(filepath.Join(fontDir, ".stage-"+nm+".tmp"), b, 0644)
+							c0 := simsched.Now()
 							os.Rename(filepath.Join(fontDir, ".stage-"+nm+".tmp"), filepath.Join(fontDir, nm))
+							onDisk[nm] = want[nm]
+							hists[i] = append(hists[i], HistEvent{Task: i, Op: "disk", Arg: strings.TrimSuffix(nm, ".gob") + "=" + want[nm], Result: "ok", Call: c0, Ret: simsched.Now()})
 						}
 					}
 					call := simsched.Now()
@@ -275,12 +308,26 @@ func runSchedule(spec RunSpec, pool string, first bool) (*RunResult, int) {
 		sw = 0
 	}
 	s := simsched.New(fns, spec.Decisions, sw)
+	if spec.PCTDepth > 0 && !spec.Solo {
+		s.SetPCT(spec.PCTDepth, spec.PCTHorizon)
+	}
 	s.Run()
 	res := RunResult{Steps: s.Steps(), Switches: s.Switches, Deadlock: s.Deadlock, Panics: map[int]string{}}
 	for id, p := range s.Panics() {
 		res.Panics[id] = fmt.Sprint(p)
 	}
 	if s.Deadlock == "" {
+		// with everything quiet: what does every font name read as now? (a stale font program that
+		// outlives the reload which replaced it shows here at the latest)
+		end := s.Steps() + 1
+		for _, c := range []byte{'A', 'B', 'C', 'D', stableFont} {
+			bb, e := font.Read(fontName(c))
+			r := "ERR"
+			if e == nil {
+				r = progDigest(bb)
+			}
+			res.History = append(res.History, HistEvent{Task: -1, Op: "read", Arg: fontName(c), Result: r, Call: end, Ret: end})
+		}
 		for i := range spec.Tasks {
 			r := results[i]
 			if outs[i] != nil {
@@ -299,6 +346,20 @@ func runSchedule(spec RunSpec, pool string, first bool) (*RunResult, int) {
 		res.Trace = s.Trace
 	}
 	return &res, 0
+}
+
+func progDigest(b []byte) string {
+	h := sha256.Sum256(b)
+	return hex.EncodeToString(h[:6])
+}
+
+func sortedNames[V any](m map[string]V) []string {
+	var nn []string
+	for k := range m {
+		nn = append(nn, k)
+	}
+	sort.Strings(nn)
+	return nn
 }
 
 func digestPDF(work string, b []byte, encrypted bool) string {
@@ -390,10 +451,26 @@ func genSpec(rng *rand.Rand) RunSpec {
 		spec.Tasks = append(spec.Tasks, ts)
 	}
 	if installer {
-		sets := []string{"AB", "ABC", "B", "CD", "", "ABCD", "A"}
+		sets := []string{"AB", "ABC", "B", "CD", "", "ABCD", "A", "aB", "Ab", "a", "ab", "aBc", "A"}
 		ts := TaskSpec{Kind: "installer"}
-		for j := 0; j < 1+rng.IntN(3); j++ {
+		for j := 0; j < 1+rng.IntN(4); j++ {
 			ts.Sets = append(ts.Sets, sets[rng.IntN(len(sets))])
+		}
+		if rng.IntN(2) == 0 {
+			// a schedule about font programs: the installer flips revisions of A and B, the lookups read them
+			ts.Sets = nil
+			flips := []string{"aB", "AB", "Ab", "ab", "a", "A", "aBC"}
+			for j := 0; j < 2+rng.IntN(4); j++ {
+				ts.Sets = append(ts.Sets, flips[rng.IntN(len(flips))])
+			}
+			for i := range spec.Tasks {
+				if spec.Tasks[i].Kind == "lookup" || rng.IntN(3) == 0 {
+					spec.Tasks[i] = TaskSpec{Kind: "lookup", Doc: spec.Tasks[i].Doc}
+					for j := 0; j < 2+rng.IntN(5); j++ {
+						spec.Tasks[i].Args = append(spec.Tasks[i].Args, []string{"read:" + fontName('A'), "read:" + fontName('A'), "read:" + fontName('B'), fontName('A'), "*"}[rng.IntN(5)])
+					}
+				}
+			}
 		}
 		spec.Tasks[rng.IntN(len(spec.Tasks))] = ts
 		spec.Preload = true
@@ -408,6 +485,10 @@ func genSpec(rng *rand.Rand) RunSpec {
 		spec.Preload = rng.IntN(2) == 0
 	}
 	spec.SwitchPermille = []int{30, 100, 300, 600, 900}[rng.IntN(5)]
+	if rng.IntN(3) == 0 {
+		spec.PCTDepth = 1 + rng.IntN(3)
+		spec.PCTHorizon = []int{40, 150, 600, 3000}[rng.IntN(4)]
+	}
 	for i := 0; i < 512; i++ {
 		spec.Decisions = append(spec.Decisions, rng.Uint32())
 	}
@@ -442,6 +523,7 @@ func raceSignature(report string) (sig string, detail string) {
 }
 
 var poolDir string
+var poolDigests = map[string]string{}
 
 // fontPool installs fonts A..D and Z once per worker process (with the real installer).
 func fontPool() (string, error) {
@@ -462,7 +544,38 @@ func fontPool() (string, error) {
 			return "", fmt.Errorf("font pool: %w", err)
 		}
 	}
+	// older revisions of A..D: the same font names with a different font program
+	old := filepath.Join(d, "old")
+	os.Mkdir(old, 0755)
+	for _, c := range []byte{'A', 'B', 'C', 'D'} {
+		os.WriteFile(tmp, gen.Variant(c, 'X'), 0644)
+		if _, err := font.InstallTrueTypeFont(old, tmp); err != nil {
+			return "", fmt.Errorf("font pool (old revisions): %w", err)
+		}
+	}
 	os.Remove(tmp)
+	// the font program each installed representation carries, decoded here without font.Read
+	for _, c := range []byte{'A', 'B', 'C', 'D', stableFont} {
+		for rev, dir := range map[string]string{"new": d, "old": old} {
+			if rev == "old" && c == stableFont {
+				continue
+			}
+			f, err := os.Open(filepath.Join(dir, fontName(c)+".gob"))
+			if err != nil {
+				return "", err
+			}
+			var rep struct{ FontFile []byte }
+			err = gob.NewDecoder(f).Decode(&rep)
+			f.Close()
+			if err != nil || len(rep.FontFile) == 0 {
+				return "", fmt.Errorf("font pool: cannot decode %s (%s): %v", fontName(c), rev, err)
+			}
+			poolDigests[fontName(c)+"="+rev] = progDigest(rep.FontFile)
+		}
+	}
+	if poolDigests[fontName('A')+"=new"] == poolDigests[fontName('A')+"=old"] {
+		return "", fmt.Errorf("font pool: old and new revision carry the same font program")
+	}
 	poolDir = d
 	return d, nil
 }
@@ -562,7 +675,7 @@ func regModel() porcupine.Model {
 				if name == fontName(stableFont) {
 					return true
 				}
-				for _, c := range []byte(st) {
+				for _, c := range []byte(strings.ToUpper(st)) {
 					if fontName(c) == name {
 						return true
 					}
@@ -576,7 +689,7 @@ func regModel() porcupine.Model {
 				return out == fmt.Sprint(has(in.Arg)), st
 			case "names":
 				var nn []string
-				for _, c := range []byte(st) {
+				for _, c := range []byte(strings.ToUpper(st)) {
 					nn = append(nn, fontName(c))
 				}
 				nn = append(nn, fontName(stableFont))
@@ -591,6 +704,82 @@ func regModel() porcupine.Model {
 			return fmt.Sprintf("%s(%s) -> %s", i.Op, i.Arg, out)
 		},
 	}
+}
+
+// staleReads checks the font programs that font.Read returned against what was on disk.
+//
+// Rule (allows any correct cache that a reload invalidates, and a plain read of the disk): a read R
+// of name N may return the program of any revision that N had on disk at some moment between the
+// START of the last reload that COMPLETED before R began (time 0 if there is none) and the end of
+// R. A revision that was replaced before that reload even started must never come back.
+func staleReads(hist []HistEvent) []string {
+	digestOf := poolDigests // "<name>=<rev>" -> digest of the font program in that installed representation
+	type diskEv struct {
+		call, ret int
+		rev       string
+	}
+	disk := map[string][]diskEv{}
+	for _, c := range []byte{'A', 'B', stableFont} {
+		disk[fontName(c)] = []diskEv{{-1, -1, "new"}}
+	}
+	for _, c := range []byte{'C', 'D'} {
+		disk[fontName(c)] = []diskEv{{-1, -1, "absent"}}
+	}
+	var reloads []HistEvent
+	for _, e := range hist {
+		switch e.Op {
+		case "disk":
+			nv := strings.SplitN(e.Arg, "=", 2)
+			disk[nv[0]] = append(disk[nv[0]], diskEv{e.Call, e.Ret, nv[1]})
+		case "reload":
+			reloads = append(reloads, e)
+		}
+	}
+	var out []string
+	for _, r := range hist {
+		if r.Op != "read" {
+			continue
+		}
+		t := 0
+		for _, l := range reloads {
+			if l.Ret < r.Call && l.Call > t { // completed strictly before the read began
+				t = l.Call
+			}
+		}
+		permitted := map[string]bool{}
+		var base *diskEv
+		evs := disk[r.Arg]
+		for i := range evs {
+			e := evs[i]
+			if e.ret < t {
+				base = &evs[i] // the revision on disk when that reload started
+				continue
+			}
+			if e.call <= r.Ret {
+				permitted[e.rev] = true
+			}
+		}
+		if base != nil {
+			permitted[base.rev] = true
+		}
+		ok := false
+		var allowed []string
+		for rev := range permitted {
+			want := "ERR"
+			if rev != "absent" {
+				want = digestOf[r.Arg+"="+rev]
+			}
+			allowed = append(allowed, rev+":"+want)
+			if r.Result == want {
+				ok = true
+			}
+		}
+		if !ok {
+			sort.Strings(allowed)
+			out = append(out, fmt.Sprintf("task %d read the font program of %s at [%d,%d] and got %s; the revisions on disk since the start (step %d) of the last reload completed before the read are %v", r.Task, r.Arg, r.Call, r.Ret, r.Result, t, allowed))
+		}
+	}
+	return out
 }
 
 func judge(spec RunSpec, solo, conc *RunResult, stderrConc string) []core.Violation {
@@ -634,7 +823,13 @@ func judge(spec RunSpec, solo, conc *RunResult, stderrConc string) []core.Violat
 	}
 	// linearizability of the font registry
 	var ops []porcupine.Operation
+	for _, v := range staleReads(conc.History) {
+		mk("stale-font-program", "", v)
+	}
 	for _, e := range conc.History {
+		if e.Op == "read" || e.Op == "disk" {
+			continue // judged by staleReads
+		}
 		ops = append(ops, porcupine.Operation{ClientId: e.Task, Input: regIn{e.Op, e.Arg}, Call: int64(e.Call), Output: e.Result, Return: int64(e.Ret)})
 	}
 	if len(ops) > 0 && len(ops) <= 60 {
